@@ -18,6 +18,7 @@
 #pragma once
 #include "vh.hpp"
 #include <functional>
+#include <set>
 #include <cerrno>
 #include <csignal>
 #include <sys/wait.h>
@@ -115,7 +116,7 @@ struct Child { int status = 0; bool timed_out = false; std::string text, result;
 template<class F> inline Child run_forked(F fn, int timeout_ms = 30000)
 {
 	Child c; int pf[2]; if (pipe(pf)) { c.text = "pipe failed"; c.status = -1; return c; }
-	fflush(stdout); fflush(stderr);
+	fflush(stderr);	// stdout is left alone: the child never writes to it and leaves with _exit
 	pid_t pid = fork();
 	if (pid == 0) {
 		close(pf[0]); dup2(pf[1], 2);
@@ -147,12 +148,26 @@ struct Batcher {
 	// clause under which the death of a child inside the case `replay` is reported (mode starts with "hang:" for the watchdog)
 	std::function<std::string(const std::string& replay, const std::string& mode)> clause_of;
 	long long batch; bool is_child = false, complete = true;
-	long long left = 0, ran = 0, resume_after = -1; int efd; bool warmed = false, nofork = false; long long confirm = -1;	// confirm: id of the case being re-run after a watchdog stop
+	long long left = 0, ran = 0, resume_after = -1; int efd; bool warmed = false, nofork = false;
+	long long confirm = -1;			// id of the case being re-run alone after a watchdog stop
+	std::set<long long> skip;		// cases of the current batch that are settled (died, or were re-run alone): later children pass over them
+	// what a child prints (statistics, violations of its own oracle) is buffered and written out together at every 256th case;
+	// `flushed` (shared with the parent) is the last case id covered by what has been written.  After a death the next child
+	// starts behind `flushed`, so every case is executed to its end and counted exactly once, whatever dies in between.
+	struct Shm { volatile long long flushed; } *shm;
 	Batcher(vh::Run& r, std::function<void(const char *)> e) : R(r), exec(e), batch(r.args.num("batch", 4000)), efd(memfd_create("fberr", 0))
 	{
-		nofork = r.args.has("nofork"); clause_of = [](const std::string&, const std::string& mode) { return mode.compare(0, 5, "hang:") == 0 ? std::string("no-hang") : std::string("memory-safe-and-total"); }; }
+		nofork = r.args.has("nofork");
+		shm = (Shm *)mmap(0, 4096, PROT_READ | PROT_WRITE, MAP_SHARED | MAP_ANONYMOUS, -1, 0); shm->flushed = -1;
+		clause_of = [](const std::string&, const std::string& mode) { return mode.compare(0, 5, "hang:") == 0 ? std::string("no-hang") : std::string("memory-safe-and-total"); };
+	}
 	bool stop() const { return !complete; }
-	void child_done() { stop_watchdog(); R.finish(true); fflush(stdout); _exit(0); }
+	void flush_child(long long upto)
+	{
+		R.finish(true); fflush(stdout); shm->flushed = upto;
+		R.evaluations = R.nontrivial = R.violations = 0; R.outcomes.clear();
+	}
+	void child_done(long long upto) { stop_watchdog(); flush_child(upto); _exit(0); }
 	static std::vector<std::string> split(const std::string& s, char c)
 	{ std::vector<std::string> o; std::string x; std::istringstream is(s); while (std::getline(is, x, c)) if (!x.empty()) o.push_back(x); return o; }
 	void read_cur(long long& cid, std::vector<std::string>& tags, std::string& rep)
@@ -162,68 +177,73 @@ struct Batcher {
 		if (sscanf(R.cur, "%lld %zu %zu\n%n", &i, &m, &n, &h) < 3 || !h) return;
 		cid = i; tags = split(std::string(R.cur + h, m), ','); rep.assign(R.cur + h + m, n);
 	}
+	bool late() { if (R.deadline && vh::Run::now() > R.deadline) { complete = false; return true; } return false; }
 	// for every case id of this shard, in enumeration order
 	void on_case(unsigned long long id, const char *d)
 	{
 		if (nofork) {	// developer aid (profiling): everything in this process, no protection
-			if (R.deadline && (ran & 0xff) == 0 && vh::Run::now() > R.deadline) { complete = false; return; }
+			if ((ran & 0xff) == 0 && late()) return;
 			++ran; ++wd_seq; exec(d); return;
 		}
 		if (!is_child) {
 			if (left == 0) {
-				if (R.deadline && vh::Run::now() > R.deadline) { complete = false; return; }
+				if (late()) return;
+				skip.clear(); confirm = -1;
 				for (;;) {
 					fflush(stdout); fflush(stderr);
 					(void)!ftruncate(efd, 0); lseek(efd, 0, SEEK_SET);
 					if (R.cur) R.cur[0] = 0;
+					if (confirm < 0) shm->flushed = resume_after;
 					pid_t pid = fork();
 					if (pid == 0) {
 						is_child = true; ran = 0; dup2(efd, 2); wd_limit = confirm >= 0 ? 20 : 4; start_watchdog(false);
+						setvbuf(stdout, nullptr, _IOFBF, 1 << 20);
 						R.evaluations = R.nontrivial = R.violations = 0; R.outcomes.clear();
 						break;
 					}
 					int st = 0; while (waitpid(pid, &st, 0) < 0 && errno == EINTR) {}
-					if (WIFEXITED(st) && WEXITSTATUS(st) == 0) {
-						if (confirm < 0) break;
+					const bool ok = WIFEXITED(st) && WEXITSTATUS(st) == 0;
+					if (ok && confirm < 0) break;	// the batch is complete
+					if (ok) {
 						// the case the watchdog stopped ran to its end when given five times the CPU time: the machine was slow, not the case
-						R.outcome("watchdog-false-alarm"); resume_after = confirm; confirm = -1; continue;
+						R.outcome("watchdog-false-alarm"); skip.insert(confirm); confirm = -1; continue;
 					}
 					// the child died inside a case
 					std::string err; { char buf[4096]; lseek(efd, 0, SEEK_SET); ssize_t k; while ((k = read(efd, buf, sizeof buf)) > 0 && err.size() < (1 << 18)) err.append(buf, k); }
 					long long cid; std::vector<std::string> tags; std::string rep; read_cur(cid, tags, rep);
 					const std::string mode = crash_mode(err, st);
 					const bool hang = mode.compare(0, 5, "hang:") == 0;
-					if (!warmed) {	// load the debug information once, so that the reports of later children are cheap
-						warmed = true; warm_symbolizer();
-					}
-					if (hang && confirm < 0 && cid >= 0) {
+					if (!warmed) { warmed = true; warm_symbolizer(); }	// load the debug information once, so that the reports of later children are cheap
+					if (cid < 0) { fprintf(stderr, "forkbatch: a batch child died before announcing a case; giving up on this shard\n%s", err.substr(0, 3000).c_str()); R.finish(false); exit(3); }
+					if (confirm < 0) resume_after = shm->flushed;	// what the dead child had written out stays; the rest is run again
+					if (hang && confirm < 0) {
 						// 2 s of CPU time in one case.  On an overloaded machine that happens to innocent cases (CPU time is charged for
 						// contention in the kernel); run this one case again, alone, with 10 s: a loop is still a loop then.
-						if (R.deadline && vh::Run::now() > R.deadline) { complete = false; return; }
-						confirm = cid; resume_after = cid - 1; continue;
+						if (late()) return;
+						confirm = cid; continue;
 					}
-					confirm = -1;
+					confirm = -1; skip.insert(cid);
+					++R.evaluations;	// the case that died counts as evaluated (its child could not report it)
 					R.outcome(hang ? "hang" : "crash:" + mode);
-					R.viol(clause_of(rep, mode), mode, tags, rep, hang ? "no return after 2 s of CPU time" : mode,
+					R.viol(clause_of(rep, mode), mode, tags, rep, hang ? "no return after 2 s (and again after 10 s) of CPU time" : mode,
 						"returns or throws a library exception; no sanitizer report, no signal, no hang", err.substr(0, 1500));
 					fwrite(err.data(), 1, std::min<size_t>(err.size(), 6000), stderr);
-					if (cid < 0) { fprintf(stderr, "forkbatch: a batch child died before announcing a case; giving up on this shard\n"); R.finish(false); exit(3); }
-					resume_after = cid;
-					if (R.deadline && vh::Run::now() > R.deadline) { complete = false; return; }	// many dying cases: the deadline still holds
+					if (late()) return;
 				}
-				if (!is_child) left = batch;
+				if (!is_child) { left = batch; resume_after = -1; }
 			}
 			if (!is_child) { --left; return; }
 		}
-		if ((long long)id > resume_after) { ++wd_seq; exec(d); }
-		if (confirm >= 0 && (long long)id >= confirm) child_done();
-		if (++ran >= batch) child_done();
-		if ((ran & 0xff) == 0) {	// partial statistics, so that a later death of this child loses at most 255 counted cases
-			++wd_seq;
-			R.finish(true); R.evaluations = R.nontrivial = R.violations = 0; R.outcomes.clear();
+		// child
+		if (confirm >= 0) {	// only that one case
+			if ((long long)id == confirm) { ++wd_seq; exec(d); stop_watchdog(); R.finish(true); fflush(stdout); _exit(0); }
+			return;
 		}
+		if ((long long)id > resume_after && !skip.count((long long)id)) { ++wd_seq; exec(d); }
+		if (++ran >= batch) child_done((long long)id);
+		if ((ran & 0xff) == 0) { ++wd_seq; flush_child((long long)id); }
 	}
-	void end() { if (is_child) child_done(); }
+	void end() { if (is_child) { if (confirm >= 0) { stop_watchdog(); _exit(0); } child_done(1LL << 62); } }
 };
 
 } // namespace fb
